@@ -67,7 +67,16 @@ def run_variant(v, build=False, keep=False):
         if not keep:
             shutil.rmtree(scratch, ignore_errors=True)
 
+def use_private_cache(env=ENV):
+    """Scratch analyses compile the changed packages: give them a build cache that is removed at exit."""
+    import atexit
+    d = tempfile.mkdtemp(prefix="hl-gocache-", dir=os.environ.get("TMPDIR", "/tmp"))
+    env["GOCACHE"] = d
+    atexit.register(lambda: shutil.rmtree(d, ignore_errors=True))
+    return d
+
 def main():
+    use_private_cache()
     args = sys.argv[1:]
     if not args:
         print(__doc__); sys.exit(2)
